@@ -10,7 +10,7 @@ from zope.interface import implementer
 from vlib import prelude
 from vlib.api import cond, assume, reached, R
 from vlib import api, fakes
-from vlib.ref_tor import TorModel, CONSENSUS
+from vlib.ref_tor import TorModel, CONSENSUS, NC
 
 prelude.install()
 from twisted.internet import defer  # noqa: E402
@@ -138,7 +138,7 @@ def _answers(answer, mode, exit_target, two, later):
     state._attacher_error = lambda f: errors.append(f) or None
     model = TorModel()
     with api.no_tracing():
-        for ev in (0, 1, 3, 6):          # circuit 1 BUILT, circuit 2 LAUNCHED
+        for ev in (0, 1, 3, NC):          # circuit 1 BUILT, circuit 2 LAUNCHED
             kind, payload = model.apply(ev)
             deliver(state, kind, payload)
         w.built = state.circuits[1]
@@ -286,7 +286,7 @@ def _via(order, late_ack=False):
     errors = []
     state._attacher_error = lambda f: errors.append(f) or None
     model = TorModel()
-    for ev in (0, 1, 3, 6, 7):          # circuit 1 BUILT, circuit 2 EXTENDED
+    for ev in (0, 1, 3, NC, NC + 1):          # circuit 1 BUILT, circuit 2 EXTENDED
         kind, payload = model.apply(ev)
         deliver(state, kind, payload)
     reactor = FakeReactor()
@@ -314,7 +314,7 @@ def _via(order, late_ack=False):
             elif code == NU:
                 state._stream_update('13 NEW 0 www.unrelated.example:80 SOURCE_ADDR=127.0.0.1:%d PURPOSE=USER' % PORTS[3])
             elif code in (B2, F2):
-                kind, payload = model.apply(6 + (3 if code == B2 else 5))
+                kind, payload = model.apply(NC + (3 if code == B2 else 5))
                 deliver(state, kind, payload)
             else:
                 i = 1 if code == S1 else 2
